@@ -3,6 +3,7 @@ package core
 import (
 	"bytes"
 	"fmt"
+	"regexp"
 	"runtime/debug"
 	"sort"
 	"strings"
@@ -30,7 +31,7 @@ type Cfg struct {
 
 // ExtNames is the extension axis of the lattice.
 var ExtNames = []string{"core", "table", "strike", "linkify", "tasklist", "gfm", "deflist", "footnote",
-	"typographer", "cjk-simple", "cjk-css3", "cjk-esc", "all", "all+cjk"}
+	"typographer", "cjk-simple", "cjk-css3", "cjk-esc", "all", "all+cjk", "custom"}
 
 func (c Cfg) String() string {
 	s := c.Ext
@@ -192,8 +193,38 @@ func (c Cfg) Extenders() []goldmark.Extender {
 		return all
 	case "all+cjk":
 		return append(all, extension.CJK)
+	case "custom":
+		return CustomExtenders()
 	}
 	panic("unknown ext " + c.Ext)
+}
+
+// CustomExtenders builds every extension through its option-bearing constructor with every extension option set to a
+// non-default value held in the instance (id prefixes, title and class templates, substitution tables, regular
+// expressions, protocol lists): the values an instance shares between all its conversions.
+func CustomExtenders() []goldmark.Extender {
+	return []goldmark.Extender{
+		extension.NewLinkify(
+			extension.WithLinkifyAllowedProtocols([]string{"http:", "https:", "go:"}),
+			extension.WithLinkifyWWWRegexp(regexp.MustCompile(`^www\.[-a-zA-Z0-9.]+[a-z]`)),
+		),
+		extension.NewTable(extension.WithTableCellAlignMethod(extension.TableCellAlignStyle)),
+		extension.Strikethrough,
+		extension.TaskList,
+		extension.DefinitionList,
+		extension.NewFootnote(
+			extension.WithFootnoteIDPrefix("fn-"),
+			extension.WithFootnoteLinkTitle("note ^^ (%%)"),
+			extension.WithFootnoteBacklinkTitle("back ^^ (%%)"),
+			extension.WithFootnoteLinkClass("lc-^^"),
+			extension.WithFootnoteBacklinkClass("bc-%%"),
+			extension.WithFootnoteBacklinkHTML("^^:%%"),
+		),
+		extension.NewTypographer(extension.WithTypographicSubstitutions(map[extension.TypographicPunctuation]string{
+			extension.LeftDoubleQuote: "&laquo;", extension.RightDoubleQuote: "&raquo;", extension.EnDash: "&ndash;&ndash;", extension.Ellipsis: "&hellip;.",
+		})),
+		extension.NewCJK(extension.WithEastAsianLineBreaks(extension.EastAsianLineBreaksCSS3Draft), extension.WithEscapedSpace()),
+	}
 }
 
 // ParserOptions returns the parser options of this configuration.
